@@ -12,7 +12,7 @@ func init() {
 		Level: "exploration",
 		Rule: "cases = generated (logger name, message, severity, caller flag, 0-24 attributes with unique hostile keys and values of every supported kind, groups nested <= 4) " +
 			"from PCG(seed, property, index); each record is captured at a recording writer and decoded by an independent strict JSON walker; " +
-			"Round 12: 7% of the records go through Infof / Warnf / Errorf (with and without operands, percent signs escaped); a quarter of the caller-flag records have no frame behind them (WriteThru with pc 0, a skip count of 1000: an empty or absent caller member, valid JSON all the same). Round 13: three registered titles with capital letters (the expected name is the title that was passed); a severity gated like Always with blank messages; one group object under two parent groups of a record. non-trivial = record decoded and matched AND (has attributes or a non-plain message); distinct = by payload bytes",
+			"Round 12: 7% of the records go through Infof / Warnf / Errorf (with and without operands, percent signs escaped); a quarter of the caller-flag records have no frame behind them (WriteThru with pc 0, a skip count of 1000: an empty or absent caller member, valid JSON all the same). Round 13: three registered titles with capital letters (the expected name is the title that was passed); a severity gated like Always with blank messages; one group object under two parent groups of a record. Round 14: empty and nil lists of instants / durations; more strings that hold NEL (U+0085). non-trivial = record decoded and matched AND (has attributes or a non-plain message); distinct = by payload bytes",
 		Assumptions: []string{"encoding/json's scanner and decoder (go1.23.5) as the reference for RFC 8259 validity", "user marshallers / value stringers are outside the domain"},
 		Floors:      map[string]int64{"records_decoded": 100, "records_through_the_printf_style_entry_points": 100, "records_without_a_frame_with_the_caller_flag_on": 100},
 		Jobs: func(tier string, seed int64) []Job {
@@ -33,7 +33,7 @@ func init() {
 		Level: "exploration",
 		Rule: "cases = generated logfmt records (production process mode): logger name, any-bytes message, severity, caller flag, 0-24 attributes with legal unique logfmt keys " +
 			"(random leading letter so that groups sort first/middle/last) and values of every supported kind incl. []byte, groups nested <= 3; each payload is tokenised by an independent " +
-			"logfmt tokenizer (strconv.Unquote for quoted values) and every pair compared with what was logged; Round 13: lines (the empty one included) through a std log bridge on a logfmt logger. non-trivial = decoded and matched AND (has attributes or non-plain message); distinct = by payload bytes. " +
+			"logfmt tokenizer (strconv.Unquote for quoted values) and every pair compared with what was logged; Round 13: lines (the empty one included) through a std log bridge on a logfmt logger. Round 14: Warnf without operands and two escaped percent signs. non-trivial = decoded and matched AND (has attributes or non-plain message); distinct = by payload bytes. " +
 			"Sub-workload handler: logfmt records through the library's log/slog handler, derived in 0-15+ WithGroup/WithAttrs steps, the record through the first of 2-4 siblings; expected tree by log/slog's rules. " +
 			"Follow-ups in main: parent and child binding one key; one group object used twice in a record",
 		Assumptions: []string{"strconv.Unquote (go1.23.5) decodes what a logfmt reader decodes", "production process mode (the multi-line error dump of testing mode is outside the statement)"},
@@ -57,7 +57,7 @@ func init() {
 		Rule: "cases = generated colored records via WriteThru (fixed instant and frame): 15 severities (built-in, registered fg / fg+bg / no colour, unregistered), tag width 1-5, minimal width 16-80, " +
 			"single/multi-line messages with/without trailing newline (70% in the layout domain, 30% with markup or other controls), 0-24 attributes of every kind incl. errors and groups; both process modes. " +
 			"Oracles: SGR terminal-state simulator (default state at every LF and at the end), escape/control skeleton compared with the same record logged with neutralised values, layout parser over the stripped text. " +
-			"Round 12: under go test errors that carry a stack trace stay such (their dump is judged); 12% of the loggers have a timestamp layout of their own (blanks, commas, zone abbreviations); every eleventh case has a chunking destination (48 bytes per call, no error) in front of the recording one. Round 13: all eight combinations of the date/time flags (a record begins with a non-empty timestamp); an attribute list as the value of a plain key; production processes started with DEBUG=1 / DEBUG=on. non-trivial = all clauses passed on a decoded record; distinct = by payload bytes Further jobs: processes with the no-color switch on, with NO_COLOR set, with the working directory removed under them. Every fourth caller case also issues a record through one of 14 public entry points from a statement of the harness and checks that the record ends with that call site; 4% of the records carry a value whose MarshalText fails with a hostile error text (judged by the escape/control skeleton only).",
+			"Round 12: under go test errors that carry a stack trace stay such (their dump is judged); 12% of the loggers have a timestamp layout of their own (blanks, commas, zone abbreviations); every eleventh case has a chunking destination (48 bytes per call, no error) in front of the recording one. Round 13: all eight combinations of the date/time flags (a record begins with a non-empty timestamp); an attribute list as the value of a plain key; production processes started with DEBUG=1 / DEBUG=on. Round 14: values of a defined string type that hold hostile text. non-trivial = all clauses passed on a decoded record; distinct = by payload bytes Further jobs: processes with the no-color switch on, with NO_COLOR set, with the working directory removed under them. Every fourth caller case also issues a record through one of 14 public entry points from a statement of the harness and checks that the record ends with that call site; 4% of the records carry a value whose MarshalText fails with a hostile error text (judged by the escape/control skeleton only).",
 		Assumptions: []string{"ShortTag and Source.Extract of the library are used to build the expected tag and caller text (their own correctness is C17 / C14 / C18)", "under go test, error texts are generated without control bytes (the multi-line dump prints the error text verbatim by design)"},
 		Floors:      map[string]int64{"records_decoded": 100, "layout_checked": 50, "sgr_sequences_simulated": 1000},
 		Jobs: func(tier string, seed int64) []Job {
@@ -82,7 +82,7 @@ func init() {
 		Level: "exploration",
 		Rule: "cases = generated logger chains of depth 1-4 (own-attribute lists of 0-20 incl. empty ones at every position, set through SetAttrs/SetAttrs1/Set), 0-5 registered context keys (string and Stringer, present/absent, nil context), " +
 			"0-64 call arguments (Attr objects and key,value pairs) over a small key space so that keys collide, groups with colliding members, inherit flag on/off, all three formats; every value carries its source tag; " +
-			"the decoded ordered (dotted key, value) list must equal the reference merge (last occurrence wins, ascending order at every level). Round 12: two cases in five with context keys run under a cancelled / expired context that still holds its values; in 20% of the cases the process's default logger (no ancestor of the chain) holds attributes of its own. Round 13: context keys whose printed name is empty (JSON); records through Log(ctx, log/slog level, ...). non-trivial = decoded, matched and at least one attribute; distinct = by the source lists",
+			"the decoded ordered (dotted key, value) list must equal the reference merge (last occurrence wins, ascending order at every level). Round 12: two cases in five with context keys run under a cancelled / expired context that still holds its values; in 20% of the cases the process's default logger (no ancestor of the chain) holds attributes of its own. Round 13: context keys whose printed name is empty (JSON); records through Log(ctx, log/slog level, ...). Round 14: half of the calls without arguments go through Infof (no context of its own); the empty key as the key of a plain pair. non-trivial = decoded, matched and at least one attribute; distinct = by the source lists",
 		Assumptions: []string{"the decoders of C04/C05/C06 (independent JSON walker, logfmt tokenizer, SGR stripper)"},
 		Floors:      map[string]int64{"records_decoded": 100, "records_with_13plus_attrs": 20, "inheriting_child_without_own_attrs": 5},
 		Jobs: func(tier string, seed int64) []Job {
@@ -98,7 +98,7 @@ func init() {
 			"(12 verbs + Println, 12 Context verbs, LogAttrs, Logit, Log with 10 log/slog levels, Infof/Warnf/Errorf, Verbose x2, and the package-level twins). A cell = one call; oracle: (bytes reached any recording writer) == admit(L, r, debug) and Enabled/EnabledContext == admit. " +
 			"Every call that takes a context is given, in turn, a live one, one with values, a cancelled one and one whose deadline has passed; registries also hold values that do not fit 32 bits. " +
 			"overlap: 17-96 goroutines issue one call each on one logger (and a child of it) while every earlier admitted call is still held inside the destination's Write; the number of Writes must equal the number of calls the rule admits, each admitted id exactly once. " +
-			"non-trivial = every executed cell; distinct = by (kind, entry, L, r, history)",
+			"Round 14: two debug-mode histories install a state holder of the application's own (states.UpdateEnvWith) first; a logger kind 'WithSkip helper of an owner that was switched Off'; every third custom level has a two-character title in another script. non-trivial = every executed cell; distinct = by (kind, entry, L, r, history)",
 		Assumptions: []string{"OK/Success count as Info and Fail as Error when gated (the library's documented built-in treat-as table)", "SetLevel(Debug) on the logger under test itself switches debug mode on (modelled)", "LnoInterrupt is set in the child so that Panic/Fatal severities can be issued"},
 		Floors:      map[string]int64{"cells": 5000, "records_emitted": 1000, "calls_silent": 1000, "overlap_calls_admitted": 300},
 		Exhaustive:  func(string) bool { return true },
@@ -140,7 +140,7 @@ func init() {
 		Rule: "cases = (format, flag subset, logger level, 1-3 destinations per class + optional per-level writer + decoys, root or child, entry point among 25 verbs / Context verbs / LogAttrs / Logit / package functions / six Println forms / blank Print, " +
 			"free-form argument list of 0-2000 items: key/value pairs of every kind, typed nils, non-string keys, dangling keys, reserved and empty keys, Attr, Attrs, []Attr with nil members, user-defined Attr, groups nested to depth 13, empty groups; message of any bytes up to ~200 kB). " +
 			"Oracle: escaping panic = violation; per-writer Write counts == the selected destinations iff admitted, else zero everywhere; every payload is one whole record (newline-terminated, carries the call id exactly once, JSON valid / logfmt starts time= on one line / colored starts with the timestamp colour); blank Print/Println == exactly one newline byte. " +
-			"Round 13: lines through a std log bridge on the logger (the empty line included); 12% of the calls run while the process-wide debug mode is on (another logger was set to Debug) with the logger under test as the default logger; 12% carry an instant in the last half microsecond of its second. non-trivial = every judged call; distinct = by case index (PRNG stream)",
+			"Round 13: lines through a std log bridge on the logger (the empty line included); 12% of the calls run while the process-wide debug mode is on (another logger was set to Debug) with the logger under test as the default logger; 12% carry an instant in the last half microsecond of its second. Round 14: 4% of the calls have a continuation line of 64 KiB or more with a marked line behind it; 5% run with a message column wider than 80. non-trivial = every judged call; distinct = by case index (PRNG stream)",
 		Assumptions: []string{"values whose own methods panic and cyclic values are not generated", "admission by the C01 rule, destination selection by the C03 model"},
 		Floors:      map[string]int64{"calls_admitted": 500, "calls_not_admitted_silent": 100, "records_delivered_whole": 500},
 		Jobs: func(tier string, seed int64) []Job {
@@ -160,7 +160,7 @@ func init() {
 			"mutex-protected recording writers with optional Gosched / sleep inside Write; every call carries its id in the message and in every attribute, plus a shared unsorted Group at the call site, a shared Group at logger level, a shared error value, " +
 			"a marshaller spy that records which pooled PrintCtx formatted it, and occasional 150-350 extra attributes (jump above the pooled size hint). Runs are executed twice: without and with the Go race detector (GORACE halt_on_error=0, reports parsed from the log files, deduplicated by the logg frames of the two stacks). " +
 			"side: the same oracles for 600-1500 calls next to (a) another logger whose destination keeps reporting errors, with caller information switched on, (b) a log/slog.Logger derived with .With(...) whose records mostly have no attributes of their own, (c) a process that changed its working directory and issues half of its records through reflection (caller frame inside the Go installation). " +
-			"Oracles: any DATA RACE report with a logg frame; every payload decodes to the complete record of exactly one call; multiset of delivered ids == multiset of issued ids per logger. Round 12: JSON loggers also get a shared Group and a shared Attrs list in VALUE position; a quarter of the loggers have io.Discard as their normal device while the error device or a per-level destination records; side/frontend starts with bases of 3, 5 and 7 derivation entries and compares the shared group value with what the application built; side/closed-elsewhere reads stdout and stderr back. Round 13: the failing destination of side/failing says EAGAIN / wrapped EINTR / a plain error; every stress call carries two uncomparable application attributes; calls whose only attribute is an instant called time; the shared frontend base has 1, 3, 5, 1, 7, 1 ... derivation entries and ends in the unsorted step. non-trivial = run with all records decoded; distinct = by run configuration side also has the scenario closed-elsewhere (loggers on the process's stdout while every goroutine makes, uses and closes request loggers of its own: every record arrives on stdout) and, in the failing scenario, a healthy destination behind the failing one that must get every record; a case whose calls do not return within 2 minutes ends the child and makes the run inconclusive.",
+			"Oracles: any DATA RACE report with a logg frame; every payload decodes to the complete record of exactly one call; multiset of delivered ids == multiset of issued ids per logger. Round 12: JSON loggers also get a shared Group and a shared Attrs list in VALUE position; a quarter of the loggers have io.Discard as their normal device while the error device or a per-level destination records; side/frontend starts with bases of 3, 5 and 7 derivation entries and compares the shared group value with what the application built; side/closed-elsewhere reads stdout and stderr back. Round 13: the failing destination of side/failing says EAGAIN / wrapped EINTR / a plain error; every stress call carries two uncomparable application attributes; calls whose only attribute is an instant called time; the shared frontend base has 1, 3, 5, 1, 7, 1 ... derivation entries and ends in the unsorted step. Round 14: 1% of the stress calls carry a 73 KiB attribute (one Write all the same); two side/failing cases have a closed *os.File in the failing logger's list. non-trivial = run with all records decoded; distinct = by run configuration side also has the scenario closed-elsewhere (loggers on the process's stdout while every goroutine makes, uses and closes request loggers of its own: every record arrives on stdout) and, in the failing scenario, a healthy destination behind the failing one that must get every record; a case whose calls do not return within 2 minutes ends the child and makes the run inconclusive.",
 		Assumptions: []string{"the Go race detector reports only races on executions it sees (happens-before based, no false positives)", "concurrent reconfiguration of a logger is outside the claim and not generated"},
 		Floors:      map[string]int64{"records_decoded": 5000, "max:max_writes_in_flight": 2, "goroutine_switches_in_arrival_order": 100, "print_contexts_used_by_several_goroutines": 1, "side_records_decoded": 3000},
 		Jobs: func(tier string, seed int64) []Job {
@@ -176,7 +176,7 @@ func init() {
 		Level: "exploration",
 		Race:  true,
 		Rule: "one case = one probe call (WriteThru with explicit timestamp and frame; format x 15 severities incl. registered fg-only / fg+bg / no colour and unregistered; groups, errors, multi-line messages, caller on/off, long values) formatted once by a fresh context (pool flushed with two GC cycles) and then again after each of 6 generated histories of 1-20 other records " +
-			"(other formats, levels with background colours or none, sizes, other loggers, other goroutines, interleaved GC); GOMAXPROCS=1 so the pooled context is deterministically reused, which a marshaller spy confirms per execution. Oracle: byte equality. Round 12 (chdir): between history and probe the process may apply TZ (local-time mode, an instant in another zone), empty the known-path table or remove its home entry (the frame lies under the $HOME the process was started with). Round 13 (sharedhandler): one log/slog handler family (0-3 WithGroup / WithAttrs steps) shared by 2-16 goroutines, each replaying a hand-built record of its own; every payload equals the quiet payload of the record it carries; also under the race detector. non-trivial = probe compared after all histories; distinct = by probe bytes. chdir: the reference is ANOTHER process - two processes started alike go chdir(A), chdir(B), probe (caller information on, frame in the library or the harness, privacy flag on/off); one of them logged in A (a caller record, one on a goroutine, several, one without caller info); payloads equal. parallel: 3-33 goroutines, each with a logger, destination and WriteThru call of its own, replay their call 150-1500 times at once (also under the race detector); every replay equals the payload obtained while the process was quiet",
+			"(other formats, levels with background colours or none, sizes, other loggers, other goroutines, interleaved GC); GOMAXPROCS=1 so the pooled context is deterministically reused, which a marshaller spy confirms per execution. Oracle: byte equality. Round 12 (chdir): between history and probe the process may apply TZ (local-time mode, an instant in another zone), empty the known-path table or remove its home entry (the frame lies under the $HOME the process was started with). Round 13 (sharedhandler): one log/slog handler family (0-3 WithGroup / WithAttrs steps) shared by 2-16 goroutines, each replaying a hand-built record of its own; every payload equals the quiet payload of the record it carries; also under the race detector. Round 14: probes that carry an application-owned self-resolving attribute (LogValuer), a fresh object of which is formatted for another logger's record first; verb probes whose first normal destination is a closed NewFileWriter file. non-trivial = probe compared after all histories; distinct = by probe bytes. chdir: the reference is ANOTHER process - two processes started alike go chdir(A), chdir(B), probe (caller information on, frame in the library or the harness, privacy flag on/off); one of them logged in A (a caller record, one on a goroutine, several, one without caller info); payloads equal. parallel: 3-33 goroutines, each with a logger, destination and WriteThru call of its own, replay their call 150-1500 times at once (also under the race detector); every replay equals the payload obtained while the process was quiet",
 		Assumptions: []string{"two runtime.GC() cycles empty sync.Pool (victim cache), giving a fresh formatting context for the reference"},
 		Floors:      map[string]int64{"probe_executions": 500, "reuse_of_pooled_context_confirmed": 100, "reuse_after_a_different_class_of_record": 50, "probe_pairs_compared": 30, "parallel_replays": 20000, "shared_handler_replays": 5000},
 		Jobs: func(tier string, seed int64) []Job {
@@ -200,7 +200,7 @@ func init() {
 		Level: "exploration", 
 		Rule: "one case = one history of 5-60 operations (New named/anonymous/colliding with options, 11 With* calls, 11 Set* calls incl. writers, skip, context keys) applied to random loggers of a growing forest (two detached roots and a fresh default logger); a reference tree model is advanced in lock-step. " +
 			"After EVERY operation: (isolation, model-free) every logger other than the receiver of a Set* emits byte-identical WriteThru probe output to the same destination as before; (model) every logger's Level/JSONMode/ColorMode/Skip/Name/Parent/Root and its decoded probe (format class, name, timestamp in the modelled zone/layout, attributes, destination incl. redirected stdout) equal the model; " +
-			"context keys through a PrintContext probe; Each/Sublogger against the model subtree. Sub-workload deflevel (own pristine processes, both process modes): package New starts parentless, colored, at the package default level (Warn in production, Debug under go test) and follows SetLevel - also when the default logger's own level was set to the next argument first (a Set on one logger) and in production processes whose environment carries DEBUG with a value that says no or whose command line carries an argument that starts with -bench. Names include ones as long as an import path; Sublogger is also asked for a name BEFORE it exists, from every ancestor, and again after its creation. Round 12: operations Close() on a logger that never got writers; registered severities with a treated-as entry as thresholds. Round 13: Close() on loggers of the tree that own no writers (drawn three times as often); WithSkip on a logger that has writers followed by AddWriter on the child. non-trivial = completed history; distinct = by history big: trees that are big in one dimension (4090-9000 direct children of one logger, anonymous or named; derivation chains of 99-1000 links; bushy trees of 1600-5600 loggers) against the creation history kept by the harness: Each from several starting points visits every logger of the subtree exactly once at its depth, Parent/Root are those of the creation, Sublogger(name) and New(name) hand out the existing child (the late-coming anonymous ones included)",
+			"context keys through a PrintContext probe; Each/Sublogger against the model subtree. Sub-workload deflevel (own pristine processes, both process modes): package New starts parentless, colored, at the package default level (Warn in production, Debug under go test) and follows SetLevel - also when the default logger's own level was set to the next argument first (a Set on one logger) and in production processes whose environment carries DEBUG with a value that says no or whose command line carries an argument that starts with -bench. Names include ones as long as an import path; Sublogger is also asked for a name BEFORE it exists, from every ancestor, and again after its creation. Round 12: operations Close() on a logger that never got writers; registered severities with a treated-as entry as thresholds. Round 13: Close() on loggers of the tree that own no writers (drawn three times as often); WithSkip on a logger that has writers followed by AddWriter on the child. Round 14: PanicLevel as a creation option; SaveLevelAndSet windows (with a SetLevel inside) in the default-level sub-workload; Sublogger lookups of a case variant of an existing name. non-trivial = completed history; distinct = by history big: trees that are big in one dimension (4090-9000 direct children of one logger, anonymous or named; derivation chains of 99-1000 links; bushy trees of 1600-5600 loggers) against the creation history kept by the harness: Each from several starting points visits every logger of the subtree exactly once at its depth, Parent/Root are those of the creation, Sublogger(name) and New(name) hand out the existing child (the late-coming anonymous ones included)",
 		Assumptions: []string{"default flags (LlocalTime set): an unset UTC mode means the instant's own zone", "SetTimeFormat is only called with explicit non-empty layouts"},
 		Floors:      map[string]int64{"operations": 2000, "isolation_comparisons": 10000, "model_comparisons": 10000, "lookups": 100, "default_level_checks": 10, "big_tree_loggers": 20000},
 		Jobs: func(tier string, seed int64) []Job {
@@ -230,7 +230,7 @@ func init() {
 	register(&Plan{
 		Prop:  "C11",
 		Level: "exploration",
-		Rule: "exh: ALL sequences up to the length bound over (call x target logger): quick = 42 calls x 3 loggers, length <= 2 (16003 sequences); thorough = length <= 3 over 42 calls (2016379) ; calls = SetJSONMode/SetColorMode with 0, 1 or 2 boolean arguments, WithJSONMode/WithColorMode variants, New(..) on a logger with the mode options (with a name, with an empty name, without a name, behind another option, two mode options in a row) and two calls that are NOT mode calls and leave the format alone (the destination replaced by a real *os.File and back; records to a destination that fails; the colours of the probe severities taken away with SetLevelColors; SetLevel/SetAttrs/SetTimeFormat), WithSkip(1) (one child per count: a repeat hands out the existing child unchanged), NewSlogHandler with JSON / NoColor options (applies them once) and a record through the handler built earlier (not a mode call), children made by With / WithAttrs / WithAttrs1 (no mode call: the parent's format), slog.Reset() while the logger is the process's default logger (no mode call), mode calls handed an empty non-nil list of booleans (= no argument), New(name, attributes..., mode option), a line with < and & through a std log bridge on the logger (no mode call); one probe in six is a call with a blank message and no arguments; " +
+		Rule: "exh: ALL sequences up to the length bound over (call x target logger): quick = 42 calls x 3 loggers, length <= 2 (16003 sequences); thorough = length <= 3 over 42 calls (2016379) ; calls = SetJSONMode/SetColorMode with 0, 1 or 2 boolean arguments, WithJSONMode/WithColorMode variants, New(..) on a logger with the mode options (with a name, with an empty name, without a name, behind another option, two mode options in a row) and two calls that are NOT mode calls and leave the format alone (the destination replaced by a real *os.File and back; records to a destination that fails; the colours of the probe severities taken away with SetLevelColors; SetLevel/SetAttrs/SetTimeFormat), WithSkip(1) (one child per count: a repeat hands out the existing child unchanged), NewSlogHandler with JSON / NoColor options (applies them once) and a record through the handler built earlier (not a mode call), children made by With / WithAttrs / WithAttrs1 (no mode call: the parent's format), slog.Reset() while the logger is the process's default logger (no mode call), mode calls handed an empty non-nil list of booleans (= no argument), New(name, attributes..., mode option), a line with < and & through a std log bridge on the logger (no mode call), New(name, WithJSONMode(false,true)) / New(name, WithColorMode(true,false)) (the last boolean is the mode); every fifth probe carries Level-valued attributes; one probe in six is a call with a blank message and no arguments; " +
 			"targets = root, child, grandchild of a fresh tree. rand: random sequences of 4-15 calls, in a production process, under go test (where every other probe carries an error value whose dump is part of the record) and in production processes started with NO_COLOR / TERM=dumb / FORCE_COLOR style environments. After EVERY call, for EVERY logger of the tree (incl. the children created on the way): JSONMode()/ColorMode() == the modelled three-state machine and a probe record classifies ({ / ESC / time=) as that state. non-trivial = every completed sequence; distinct = by sequence",
 		Assumptions: []string{"a call without arguments means true, with several the last wins (as documented)"},
 		Floors:      map[string]int64{"probes_classified": 5000},
@@ -287,7 +287,7 @@ func init() {
 		Level: "fault_enumeration",
 		Rule: "complete enumeration of {7 writer configurations: 1-3 normal, 1-3 error, 0-2 per-level writers, one with the same writer in both classes} x {logger level Always, Trace, Info, Error, Panic} x {all call sequences of length 1..n over 5 severity classes: normal, error-class, Warn, per-level, custom error device} x {ALL fail/succeed assignments to the first N write attempts (global order across the fault-injecting writers; a failing attempt reports the count 0, half of the payload, -1 or more than the payload, by attempt number; the error value rotates over 14 kinds incl. closed file/pipe, ENOSPC, wrapped ones, two whose dynamic type is not comparable and three that call themselves temporary (EAGAIN, EINTR))}; quick n=2,N=6 (57 600 cases), thorough n=3,N=10 (4 761 600 cases); every case runs on a detached logger AND on a child of a parent that admits everything and has a destination of its own, which must stay empty. " +
 			"After the faulted calls a healthy round issues every class again. Oracle per call over the attempt log: returns without panic; every selected destination is handed the complete record exactly once; diagnostics only at the warning destinations, at most one each, none for a Warn record / unfailed record / logger not admitting Warn; attempts <= |selected|+|warning destinations|; healthy round: normal delivery and no diagnostic, then one record one of whose values logs through another logger while it is being formatted (both records whole, once). " +
-			"defaultdev: 27 cases {stdout, stderr, both redirected onto /dev/full} x {logger never given writers, its child, the package-level functions} x {level Always, Error, Info}: seven calls of mixed severity must return while the process's own devices fail with ENOSPC, and arrive normally once the devices work again. devwriter: 12 cases {root, child, package functions} x {4 logger levels} in which the package's default device (GetDefaultWriter) is ONE of the logger's normal writers next to a recording one while stdout is /dev/full: the other writer gets each record once, at most one diagnostic goes to the logger's own warning destination, nothing reaches the process's stderr. After the faulted calls of every enum case a blank line (Println() / Print(\"\")) must arrive as one newline byte and draw no diagnostic. non-trivial = case in which at least one Write of a record failed; distinct = by case index closedfile: files the application closed (a NewFileWriter log file, the standard-device wrappers after Close on what GetWriterBy hands out, a plain *os.File) stand in front of recording destinations; one kind has an alert destination that removes the failing one when it sees the diagnostic, one a per-level writer for Panic: returns normally, the recording destination gets the record once, at most one diagnostic and only at a warning destination. verbosebuild: 48 cases in a workload built with -tags verbose {logger, child installed as the default logger} x {3 formats} x {1-4 consecutive failing attempts of its first normal destination}, records through package-level functions: one attempt per record at the failing destination, the healthy one behind it holds the record once and nothing else, at most one diagnostic per failing record. addonly: 162 cases {1-3 added normal destinations} x {0-2 added error destinations} x {which added one fails} x {3 formats} x {root, child}, built with AddWriter / AddErrorWriter only so that the standard devices stay in their sets (stdout / stderr of the process are read back): every destination of the record's class is handed it once, reports about the failure go to warning destinations only. After every enum case the process-wide flags are what they were before it. fsizelimit: 24 cases in which a NewFileWriter log file hits the process's file size limit (RLIMIT_FSIZE, EFBIG) for one or two records and the limit is lifted again: the recording destination behind it holds every record once, the later records are in the file, nothing is reported once the file works again.",
+			"defaultdev: 27 cases {stdout, stderr, both redirected onto /dev/full} x {logger never given writers, its child, the package-level functions} x {level Always, Error, Info}: seven calls of mixed severity must return while the process's own devices fail with ENOSPC, and arrive normally once the devices work again. devwriter: 12 cases {root, child, package functions} x {4 logger levels} in which the package's default device (GetDefaultWriter) is ONE of the logger's normal writers next to a recording one while stdout is /dev/full: the other writer gets each record once, at most one diagnostic goes to the logger's own warning destination, nothing reaches the process's stderr. After the faulted calls of every enum case a blank line (Println() / Print(\"\")) must arrive as one newline byte and draw no diagnostic. Round 14: an error with an empty text among the error kinds. non-trivial = case in which at least one Write of a record failed; distinct = by case index closedfile: files the application closed (a NewFileWriter log file, the standard-device wrappers after Close on what GetWriterBy hands out, a plain *os.File) stand in front of recording destinations; one kind has an alert destination that removes the failing one when it sees the diagnostic, one a per-level writer for Panic: returns normally, the recording destination gets the record once, at most one diagnostic and only at a warning destination. verbosebuild: 48 cases in a workload built with -tags verbose {logger, child installed as the default logger} x {3 formats} x {1-4 consecutive failing attempts of its first normal destination}, records through package-level functions: one attempt per record at the failing destination, the healthy one behind it holds the record once and nothing else, at most one diagnostic per failing record. addonly: 162 cases {1-3 added normal destinations} x {0-2 added error destinations} x {which added one fails} x {3 formats} x {root, child}, built with AddWriter / AddErrorWriter only so that the standard devices stay in their sets (stdout / stderr of the process are read back): every destination of the record's class is handed it once, reports about the failure go to warning destinations only. After every enum case the process-wide flags are what they were before it. fsizelimit: 24 cases in which a NewFileWriter log file hits the process's file size limit (RLIMIT_FSIZE, EFBIG) for one or two records and the limit is lifted again: the recording destination behind it holds every record once, the later records are in the file, nothing is reported once the file works again.",
 		Assumptions: []string{"a failed attempt counts as 'handed the record once' (the library does not retry)", "destination selection by the C03 model, admission by the C01 rule"},
 		Floors:      map[string]int64{"schedules": 1000, "calls_with_a_failing_write": 1000, "diagnostic_records_seen": 200, "verbose_build_records_judged": 100, "add_only_records_judged": 300, "file_size_limit_cases_judged": 12},
 		Variants:    []string{"verbose"},
@@ -347,7 +347,7 @@ func init() {
 		Rule: "handler: cases = (underlying logger held as Logger or *Entry, pre-set level, all 8 HandlerOptions boolean combinations x 6 Level values, derivation chain of 0-4 WithAttrs/WithGroup calls, log/slog record with explicit time, standard level, hostile message and 0-5 attributes of every log/slog kind: String/Int64/Uint64/Float64/Bool/Time/Duration/Any(error|struct|nil|int8|[]string)/LogValuer/Group nested <= 3); " +
 			"oracles: Handler.Enabled == logger gate (base and derived); Handle emits exactly one record at the logger's own destination (nothing on fds 1/2, which are redirected); the decoded record (C04/C05/C06 decoders) has the message, the record's own time, the namesake severity and the expected attribute tree (attributes given after WithGroup nested under it); a log/slog.Logger on the handler emits iff the logger admits. " +
 			"bridge: all (8 logger levels x 8 bridge severities) pairs x Print/Printf/Println/Output x hostile messages with 0-2 trailing newlines: one record iff the logger admits the severity, message == std-log line minus its trailing newline, level == bridge severity. " +
-			"conc: 2-16 goroutines log through ONE derived handler (WithAttrs/WithGroup chain of depth 1-3), with and without the race detector: every record carries its own attributes under the groups, none is lost. levelsweep: production child processes run Entry.Log for every log/slog level in -1100..1100 and 53 far values (incl. those equal to LevelFatal / LevelPanic modulo 2^8, 2^16, 2^32) (only LevelFatal / LevelPanic may terminate; the four standard levels are recorded under their namesakes). Round 12 (bridge): three registered severities of the application next to the built-in ones. Round 13 (grouphist): five records in a row through one derived handler whose With step holds a group, two of them carrying a group of the same name, two nothing: each carries the handler's attributes and its own (the later group stands in for the earlier one), nothing of an earlier record; 3 formats x 3 derivations. non-trivial = decoded and matched record / judged pair; distinct = by payload or pair",
+			"conc: 2-16 goroutines log through ONE derived handler (WithAttrs/WithGroup chain of depth 1-3), with and without the race detector: every record carries its own attributes under the groups, none is lost. levelsweep: production child processes run Entry.Log for every log/slog level in -1100..1100 and 53 far values (incl. those equal to LevelFatal / LevelPanic modulo 2^8, 2^16, 2^32) (only LevelFatal / LevelPanic may terminate; the four standard levels are recorded under their namesakes). Round 12 (bridge): three registered severities of the application next to the built-in ones. Round 13 (grouphist): five records in a row through one derived handler whose With step holds a group, two of them carrying a group of the same name, two nothing: each carries the handler's attributes and its own (the later group stands in for the earlier one), nothing of an earlier record; 3 formats x 3 derivations. Round 14: two record keys that differ in letter case only; (JSON) a string value under the empty key. non-trivial = decoded and matched record / judged pair; distinct = by payload or pair",
 		Assumptions: []string{"attributes bound to the underlying logger itself are not generated (the statement does not say whether a handler shows them)", "an open group always receives at least one attribute (log/slog elides empty groups)"},
 		Floors:      map[string]int64{"records_decoded": 300, "derived_handler_records": 100, "enabled_compared": 1000, "bridge_calls": 500, "bridge_records_decoded": 100, "concurrent_handler_records": 5000, "levels_returned_normally": 79, "explicit_terminations_observed": 2},
 		Jobs: func(tier string, seed int64) []Job {
@@ -365,7 +365,7 @@ func init() {
 		Prop:  "C16",
 		Level: "exploration",
 		Rule: "cases = (instant: year 1-9999, every sub-second pattern, 6 fixed offsets incl. odd minutes + 5 named zones from the embedded tzdata; all 8 date/time/microseconds flag combinations x LlocalTime on/off; UTC mode unset / false / true; no logger layout or one of 14 custom layouts; json/logfmt/color) logged through WriteThru with that instant; " +
-			"the timestamp text is extracted from the record and must equal instant.In(zone).Format(layout) with zone = UTC iff UTC mode or (unset and LlocalTime clear), layout = the logger's, else the documented table for the flags (any exported layout for the two combinations the table does not list); layouts with full date, time and numeric zone must parse back to the instant truncated to the layout's precision. Round 12: a fifth of the unset-mode cases go through a WithJSONMode / WithColorMode child of a parent that has a layout and a zone mode of its own. Round 13: the package's own layouts pinned explicitly and layouts ending in a literal Z joined the layout list. non-trivial = matched timestamp; distinct = by (text, layout, format)",
+			"the timestamp text is extracted from the record and must equal instant.In(zone).Format(layout) with zone = UTC iff UTC mode or (unset and LlocalTime clear), layout = the logger's, else the documented table for the flags (any exported layout for the two combinations the table does not list); layouts with full date, time and numeric zone must parse back to the instant truncated to the layout's precision. Round 12: a fifth of the unset-mode cases go through a WithJSONMode / WithColorMode child of a parent that has a layout and a zone mode of its own. Round 13: the package's own layouts pinned explicitly and layouts ending in a literal Z joined the layout list. Round 14: SetUTCMode with several values (the last one is the mode). non-trivial = matched timestamp; distinct = by (text, layout, format)",
 		Assumptions: []string{"Go's time.Format/time.Parse (go1.23.5) as the reference for layouts", "SetTimeFormat given several layouts: the last non-empty one is the logger's layout (how the variadic setter is written)"},
 		Floors:      map[string]int64{"timestamps_extracted": 1000, "parsed_back": 100},
 		Jobs: func(tier string, seed int64) []Job {
@@ -377,7 +377,7 @@ func init() {
 		Level: "exploration",
 		Rule: "one case = one history in its own child process (the registry cannot be reset; index 0 is the pristine registry): 1-30 RegisterLevel calls with values -50..70 incl. collisions, titles in lower/Title/UPPER case incl. built-in names, aliases and already registered titles, every subset of the options (short tags with a missing width, treat-as, error device, colour fg / fg+bg). " +
 			"A model of the registry says which calls must be refused (used value, exactly used title; a title differing only in case may go either way). After a refusal EVERY observable (AllLevels, names, 5 tag widths, text marshalling, gating matrix against 12 logger levels, routing and bytes of a colored probe, parse results over a name universe) must be unchanged. " +
-			"After every call, for every built-in / registered level: ParseLevel(String(l)) == l, text and JSON round trips (methods and through encoding/json), ShortTag(1..5) = custom tag or exactly n characters, gating == treated-as rule, routing == error device iff requested, title resolves, built-in names still resolve. Round 12: every fourth route probe adds and removes a writer for the level itself; 12% of the steps sort the slice AllLevels() handed out. Round 13: titles with a multi-byte character and an invalid byte; the error-device option with several values and with none. non-trivial = completed history; distinct = by history",
+			"After every call, for every built-in / registered level: ParseLevel(String(l)) == l, text and JSON round trips (methods and through encoding/json), ShortTag(1..5) = custom tag or exactly n characters, gating == treated-as rule, routing == error device iff requested, title resolves, built-in names still resolve. Round 12: every fourth route probe adds and removes a writer for the level itself; 12% of the steps sort the slice AllLevels() handed out. Round 13: titles with a multi-byte character and an invalid byte; the error-device option with several values and with none. Round 14: levels treated as Off. non-trivial = completed history; distinct = by history",
 		Assumptions: []string{"ASCII titles", "a title that differs only in case from a used name may be refused or accepted"},
 		Floors:      map[string]int64{"register_calls": 500, "registrations_accepted": 100, "refusals_checked_for_side_effects": 50, "roundtrips": 5000, "custom_levels_probed": 500},
 		Jobs: func(tier string, seed int64) []Job {
@@ -390,7 +390,7 @@ func init() {
 		Rule: "one case = one mapping table built by a random add/remove history (11 overlapping string prefixes incl. nested ones, prefixes under $HOME, with spaces and non-ASCII; 3 regexp mappings; the initial home and cwd entries stay) x the two privacy flags, then 12 queries (under a prefix, the prefix itself, near misses like /srvx, regexp territory, outside everything, relative/empty/very long/.. paths, below cwd), " +
 			"each query asked 32 times through Safety and SafetyFiles because the mapping table is a Go map with randomised iteration order - the evidence counts queries whose output depends on that order. Oracle: no panic; with the privacy flag a path component-wise under a protected prefix is never reported equal to or starting with that prefix and starts with an applicable short form (or is a relative path to the same file); " +
 			"regexp-protected prefixes likewise when the regexp flag is on; a path that no mapping string-prefixes and no regexp matches is returned unchanged or as a strictly shorter relative path resolving to the same file. The caller field of emitted records is checked with the harness's own source directory registered. Keys written with a trailing separator cover what lies below them. " +
-			"Sub-workload generated: 54 cells {3 functions below //line directives with absolute file names} x {3 formats} x {3 short forms} x {root, child}, in the ordinary build, under go test and in a -trimpath build: neither the caller field nor Safety of the same name reports the registered directory. Round 13: paths that begin with what an unanchored rule matches; removal of registered rules and of the built-in volume rule (by pattern or by resetting the regexp table). non-trivial = judged query; distinct = by (path, table, flags)",
+			"Sub-workload generated: 54 cells {3 functions below //line directives with absolute file names} x {3 formats} x {3 short forms} x {root, child}, in the ordinary build, under go test and in a -trimpath build: neither the caller field nor Safety of the same name reports the registered directory. Round 13: paths that begin with what an unanchored rule matches; removal of registered rules and of the built-in volume rule (by pattern or by resetting the regexp table). Round 14: keys in a non-canonical spelling (a doubled separator, a dot segment). non-trivial = judged query; distinct = by (path, table, flags)",
 		Assumptions: []string{"replacements are non-empty and not absolute paths", "ResetKnownPathMapping and removal of the home / cwd entries are not generated", "paths that merely string-prefix-match a key without lying under it (/srvx for /srv) are unconstrained"},
 		Floors:      map[string]int64{"queries": 10000, "caller_fields_checked": 20, "caller_fields_of_generated_code_checked": 100},
 		Variants:    []string{"trimpath"},
